@@ -314,7 +314,10 @@ pub fn check_c03<T: Sc>(spec: &ModelSpec, alpha: &[T], r: &Reference, obs: &Obs<
         let x = &wdk * &c; // N x S
         let jref = -svd.proj_perp(&x, 0.0);
         let xs = refla::fro(&x);
-        let tol = k_ * eps * r.kappa_kept * xs + 1e-300;
+        // absolute floor: the subject's arithmetic underflows below the smallest positive (subnormal) number of its type;
+        // intermediate products (the derivative of a vanishing tail times a coefficient) may be flushed a few binades above it
+        let tiny = if eps > 1e-10 { 1.4e-45 * 1e6 } else { 5e-324 * 1e6 };
+        let tol = k_ * eps * r.kappa_kept * xs + tiny;
         let mut worst = 0.0f64;
         let mut at = (0, 0);
         for s in 0..s_ {
